@@ -110,14 +110,16 @@ pub struct Layout {
     pub vary_spelling: bool,
     /// render every instruction / directive with exactly this spelling
     pub force: Option<Spelling>,
+    /// lines end in CR LF (a source written on Windows)
+    pub crlf: bool,
 }
 
 impl Layout {
     pub fn plain() -> Layout {
-        Layout { blank: 0, comment: 0, indent: false, trailing_newline: true, label_same_line: false, brace_same_line: false, vary_spelling: false, force: None }
+        Layout { blank: 0, comment: 0, indent: false, trailing_newline: true, label_same_line: false, brace_same_line: false, vary_spelling: false, force: None, crlf: false }
     }
     pub fn random(rng: &mut Rng) -> Layout {
-        Layout { blank: rng.below(4), comment: rng.below(4), indent: rng.chance(1, 2), trailing_newline: rng.chance(3, 4), label_same_line: rng.chance(1, 3), brace_same_line: rng.chance(1, 4), vary_spelling: rng.chance(1, 2), force: None }
+        Layout { blank: rng.below(4), comment: rng.below(4), indent: rng.chance(1, 2), trailing_newline: rng.chance(3, 4), label_same_line: rng.chance(1, 3), brace_same_line: rng.chance(1, 4), vary_spelling: rng.chance(1, 2), force: None, crlf: rng.chance(1, 5) }
     }
 }
 
@@ -127,6 +129,8 @@ pub struct Rendered {
 }
 
 struct Renderer<'a> {
+    /// lines that carry a trailing comment (1-based)
+    commented: std::collections::HashSet<usize>,
     /// every definition of a label / procedure name: name -> (line, text of the line, column of the name)
     defs: Vec<(String, usize, String, i64)>,
     offend: Vec<Value>,
@@ -178,6 +182,7 @@ impl<'a> Renderer<'a> {
                 full = text.clone();
             }
             full.push_str("; trailing comment");
+            self.commented.insert(self.lines.len() + 1);
         }
         self.lines.push(full);
         if let Some((l, col)) = pending_def {
@@ -313,7 +318,7 @@ fn data_json(d: &DataItem) -> Value {
 }
 
 pub fn render(p: &Program, lay: &Layout, rng: &mut Rng, n: usize) -> Rendered {
-    let mut r = Renderer { defs: Vec::new(), offend: Vec::new(), lines: Vec::new(), lay, rng, pending_label: None };
+    let mut r = Renderer { commented: std::collections::HashSet::new(), defs: Vec::new(), offend: Vec::new(), lines: Vec::new(), lay, rng, pending_label: None };
     let mut data = Vec::new();
     for d in &p.data {
         r.filler();
@@ -344,9 +349,41 @@ pub fn render(p: &Program, lay: &Layout, rng: &mut Rng, n: usize) -> Rendered {
             r.offend.push(json!({"line":line,"text":text,"col":col}));
         }
     }
-    let mut source = r.lines.join("\n");
+    // CR LF line ends (never with a filler item: its lines are not listed one by one).  The text the driver shows for a
+    // line runs up to the LF, so it ends in CR -- unless a trailing comment was cut off (the CR goes with it) or the line
+    // is the last one of a file without final newline
+    let crlf = lay.crlf && !p.items.iter().any(|x| matches!(x, Item::Fill(_)));
+    let mut items = items;
+    if crlf {
+        let nlines = r.lines.len();
+        let keep_cr = |line: usize| -> bool { !r.commented.contains(&line) && (line < nlines || lay.trailing_newline) };
+        fn fix(v: &mut Value, keep_cr: &dyn Fn(usize) -> bool) {
+            if let Some(arr) = v.as_array_mut() {
+                for x in arr.iter_mut() { fix(x, keep_cr); }
+                return;
+            }
+            for (lk, tk, bk) in [("line", "text", "textb"), ("endline", "endtext", "endtextb")] {
+                if let (Some(line), Some(text)) = (v.get(lk).and_then(|x| x.as_u64()), v.get(tk).and_then(|x| x.as_str()).map(|x| x.to_string())) {
+                    if keep_cr(line as usize) {
+                        let t = format!("{}\r", text);
+                        v[bk] = json!(t.as_bytes());
+                        v[tk] = json!(t);
+                    }
+                }
+            }
+            if let Some(body) = v.get_mut("body") { fix(body, keep_cr); }
+        }
+        let mut iv = Value::Array(items);
+        fix(&mut iv, &keep_cr);
+        items = iv.as_array().unwrap().clone();
+        let mut ov = Value::Array(r.offend.clone());
+        fix(&mut ov, &keep_cr);
+        r.offend = ov.as_array().unwrap().clone();
+    }
+    let eol = if crlf { "\r\n" } else { "\n" };
+    let mut source = r.lines.join(eol);
     if lay.trailing_newline {
-        source.push('\n');
+        source.push_str(eol);
     }
     let stdin: Vec<Value> = p.stdin.iter().map(|s| s.to_json()).collect();
     let mut pj = json!({"ev":"program","n":n,"data":data,"items":items,"interp":p.interp,"stdin":stdin,"note":p.note});
